@@ -2,6 +2,7 @@
 
 from __future__ import annotations
 
+import copy
 import inspect
 import itertools
 import warnings
@@ -112,6 +113,8 @@ class DLTypeAnnotation(NamedTuple):
             msg = f"Invalid base type=<{tensor_type}> in DLType hint, expected a subtype of {_dtypes.SUPPORTED_TENSOR_TYPES}"
             raise TypeError(msg)
 
+        # annotation objects may be shared between hints (type aliases), never mutate them
+        dltype_hint = copy.copy(dltype_hint)
         dltype_hint.optional = optional
         return (cls(tensor_type_hint=tensor_type, dltype_annotation=dltype_hint),)
 
